@@ -644,7 +644,7 @@ void ConfigObject::DumpModifiedAttributes(const std::function<void(const ConfigO
 
 					for (std::vector<String>::size_type i = 1; i < tokens.size() - 1; i++) {
 						if (!current.IsObjectType<Dictionary>())
-							BOOST_THROW_EXCEPTION(std::invalid_argument("Value must be a dictionary."));
+							break;
 
 						Dictionary::Ptr dict = current;
 						const String& key = tokens[i];
@@ -655,8 +655,10 @@ void ConfigObject::DumpModifiedAttributes(const std::function<void(const ConfigO
 						current = dict->Get(key);
 					}
 
+					/* The parent is no longer a dictionary: it was overwritten by a later modification which
+					 * has its own entry. Skip the stale entry instead of aborting the whole dump. */
 					if (!current.IsObjectType<Dictionary>())
-						BOOST_THROW_EXCEPTION(std::invalid_argument("Value must be a dictionary."));
+						continue;
 
 					Dictionary::Ptr dict = current;
 					const String& key = tokens[tokens.size() - 1];
